@@ -9,7 +9,7 @@ CH = {0: 'StartAcquire', 1: 'TryToAcquire', 2: 'Release', 3: 'CsRead', 4: 'CsWri
 
 class C08(flow.Spec):
     prop = 'C08'
-    props_files = ['theories/Props/C08.v', 'theories/Props/C08_examples.v']
+    props_files = ['theories/Props/C08.v', 'theories/Props/C08_examples.v', 'theories/Props/C08_tso.v', 'theories/Props/C08_tso_examples.v']
     model_targets = ['theories/Sync/Machine.vo']
     pkg = 'sync'
     harness = [os.path.join(H, 'zz_verif_c08_test.go')]
@@ -19,10 +19,10 @@ class C08(flow.Spec):
             'assembly regenerated from spinlock_amd64.s; (1) parallel stress: 2-32 goroutines on all cores mixing the three calls '
             'with holder counter, protected plain counter, watchdog; (2) bounded breadth-first search over interleavings of the '
             'regenerated program in the extracted machine (finds replay schedules only). non-trivial = at least 3 ops / 2 tasks')
-    partial = ['proved for interleaving (sequentially consistent) semantics with the plain read returning an arbitrary value; '
-               'real parallel execution and x86-TSO are exercised by the stress harness, not exhibited by the model',
+    partial = ['proved for interleaving semantics and for x86-TSO store buffering (Props/C08_tso.v); that real cores implement x86-TSO is an '
+               'assumption, the stress harness exercises real parallel execution',
                'starvation-freedom is not claimed (test-and-set lock)']
-    assumptions = ['locked XCHG is a full fence and Go sync/atomic SwapUint32/StoreUint32 are sequentially consistent on amd64',
+    assumptions = ['the hardware memory model is x86-TSO: FIFO store buffer per core, LOCK-prefixed instructions (XCHG) run on a drained buffer and act on memory; Go sync/atomic SwapUint32/StoreUint32 are XCHGL on amd64',
                    'translator lib/gen_sync.py (assembly text -> instruction list; Go one-line wrappers -> constants)',
                    'clients follow the protocol: only a holder calls Release']
 
